@@ -678,6 +678,17 @@ func gen(w *kit.Out, r *kit.Rand, tier string) {
 			emit("md", string(x.bytesWeighted(1+r.Intn(200))))
 		}
 	}
+	// ---- the served page (layout + TOC + rendered realm) through the real HTTP handler
+	w.Case("page")
+	for _, p := range htmlPayloads {
+		w.Op("page %s", hexs("# "+p+"\n\n"+p+"\n\n## h2 "+p))
+	}
+	for _, u := range []string{"javascript:alert(1)", "java&#115;cript:alert(1)", "data:text/html,x", "javascript&colon;alert(1)"} {
+		w.Op("page %s", hexs("## [x]("+u+") ![y]("+u+")\n\n[x]("+u+")"))
+	}
+	for i := 0; i < 60*scale; i++ {
+		w.Op("page %s", hexs(x.document()))
+	}
 	w.Case("badop")
 	w.Op("md zz -")
 	w.Op("nosuch 00")
